@@ -91,6 +91,7 @@ class Shard:
         self.samples = []
         self.evaluations = 0
         self.notes = {}
+        self.data = {}                   # bulky per-shard observations for post() (not copied into the evidence file)
         self.inconclusive = []
         self.t0 = time.time()
         self.budget_s = float(os.environ.get('VF_SHARD_BUDGET_S', '0') or 0)
@@ -154,7 +155,7 @@ class Shard:
             'violations': self.violations, 'n_violations': self.n_violations,
             'sigs_nontrivial': [s for s, nt in self.sigs.items() if nt],
             'n_sigs': len(self.sigs), 'classes': dict(self.classes), 'samples': self.samples,
-            'notes': jsonable(self.notes), 'inconclusive': self.inconclusive, 'wall_s': round(time.time() - self.t0, 2),
+            'notes': jsonable(self.notes), 'data': self.data, 'inconclusive': self.inconclusive, 'wall_s': round(time.time() - self.t0, 2),
         }
         tmp = path + '.tmp'
         with open(tmp, 'w') as f:
@@ -251,7 +252,7 @@ def run(prop, tier, seed, only_shard=None):
             results.append(f.result())
 
     merged = {'evaluations': 0, 'monitors': Counter(), 'violations': [], 'n_violations': 0, 'sigs': set(), 'n_sigs': 0,
-              'classes': Counter(), 'samples': [], 'notes': {}, 'inconclusive': [], 'shards': []}
+              'classes': Counter(), 'samples': [], 'notes': {}, 'data': {}, 'inconclusive': [], 'shards': [], 'results': results, 'plan': shards}
     for r in results:
         spec = shards[r['index']]
         info = {'name': r['name'], 'status': r['status'], 'wall_s': r['wall_s']}
@@ -278,6 +279,8 @@ def run(prop, tier, seed, only_shard=None):
             merged['samples'].extend(data['samples'][:2])
             if data['notes']:
                 merged['notes'][r['name']] = data['notes']
+            if data.get('data'):
+                merged['data'][r['name']] = data['data']
             merged['inconclusive'].extend(data['inconclusive'])
             info['evaluations'] = data['evaluations']
         merged['shards'].append(info)
@@ -379,3 +382,15 @@ def replay(prop, tier, path):
         if s['name'] in names:
             rc = max(rc, run(prop, rec['tier'], seed, only_shard=i))
     return rc
+
+
+# helpers for post() oracles (cross-shard comparisons run in the parent)
+def post_ok(merged, monitor, n=1):
+    merged['monitors'][monitor] += n
+
+
+def post_fail(merged, monitor, key, shard, witness):
+    merged['monitors'][monitor] += 1
+    merged['n_violations'] += 1
+    if len(merged['violations']) < 4 * MAX_VIOLATIONS_KEPT:
+        merged['violations'].append({'monitor': monitor, 'key': key, 'shard': shard, 'witness': jsonable(witness)})
